@@ -776,8 +776,20 @@ def merge_rules(run, r_bases, r_ids, ast):
                         e = astq.strip(x) if x.get("k") != "DeclStmt" else None
                         if e is not None and e.get("k") == "BinaryOperator" and e.get("op") == "=" and (astq.strip(e["c"][0]) or {}).get("k") == "DeclRefExpr" and (astq.strip(e["c"][1]) or {}).get("k") == "CXXBoolLiteralExpr" and astq.strip(e["c"][1]).get("v"):
                             flags.add(astq.strip(e["c"][0])["ref"]["did"])
-                if any(lp.get("cond") is not None and any(y.get("k") == "DeclRefExpr" and y["ref"]["did"] in flags for y in astq.walk(lp["cond"])) for lp in loops):
+                fl_loops = [lp for lp in loops if lp.get("cond") is not None and any(y.get("k") == "DeclRefExpr" and y["ref"]["did"] in flags for y in astq.walk(lp["cond"]))]
+                if fl_loops:
                     okc = True
+                    # the first pass is unconditional: the flag starts out true (or the loop tests it after the body)
+                    for lp in fl_loops:
+                        if lp.get("k") == "DoStmt":
+                            continue
+                        fdids = {y["ref"]["did"] for y in astq.walk(lp["cond"]) if y.get("k") == "DeclRefExpr" and y["ref"]["did"] in flags}
+                        inits = [d.get("init") for st in astq.walk(f["body"]) if st.get("k") == "DeclStmt" for d in st["decls"] if d.get("did") in fdids]
+                        for ini in inits:
+                            e = astq.strip(ini) if ini is not None else None
+                            if not (e is not None and e.get("k") == "CXXBoolLiteralExpr" and e.get("v")):
+                                run.instance(r_bases, "%s: the closure of the base lists runs for every registry (its first pass is unconditional)" % short(f), (f["file"], lp["l"]), ok=False)
+                                run.violation(r_bases, "compiler::augment_classes|closure-conditional", "the closure loop only starts if `%s`: registries for which that is false (every class registered once, with its direct bases only) keep incomplete base lists" % (astq.text(ini)[:70] if ini is not None else "?"), (f["file"], lp["l"]))
             overwritten = None
             if closure and not okc:
                 # the flag of the fixpoint loop is ASSIGNED a per-class verdict (not set on every insertion, not accumulated): whether
